@@ -14,7 +14,7 @@ CHECKS = {
          "SPEC reads the intended semantics (cross-checked by the oracle-free relations C08/C09/C10/C18); standard deterministic user functions", "4/C01"),
  "C02": ("isolated-worker totality monitor on Parse: panic / process death / hang / (f,err) contract over 9 hostile string generators x 3 configurations",
          "exploration", HELD + "A crash or hang of the worker process is observed by the parent and confirmed by re-running the culprit alone in a fresh process.",
-         "bounded time = returned before a 10 s watchdog (confirmed 3 x 60 s alone); strings <= 256 characters", "4/C02"),
+         "bounded time = returned before a 10 s watchdog, measured inside the library call (confirmed 2 x 45 s alone in fresh processes); strings <= 256 characters", "4/C02"),
  "C03": ("isolated-worker totality monitor on evaluation: panic / death / hang / (res,err) contract, FunctionFailed only with a failing user function, pool-poison hook",
          "exploration", HELD + "Paths come from the hostile generators filtered to those that parse plus ASTs with integer literals at +-2^31 / +-2^63; documents include non-JSON leaves.",
          "bounded time as for C02; recording user functions", "4/C03"),
